@@ -9,9 +9,12 @@ package main
 // Script format (replay files):  CHAIN <blocks> <tiny 0|1>  then steps:  STEP B|F  followed by E lines.
 
 import (
+	"encoding/hex"
 	"fmt"
+	"math/big"
 	"strings"
 
+	"github.com/youchainhq/go-youchain/common"
 	"github.com/youchainhq/go-youchain/rlp"
 	"github.com/youchainhq/go-youchain/staking"
 
@@ -38,6 +41,13 @@ func newChainRun(drv *vh.Driver, blocks int, tiny bool) (*chainRun, error) {
 }
 
 func (cr *chainRun) stop() { cr.sc.k.Stop() }
+
+func orDash(s string) string {
+	if s == "" || strings.ContainsAny(s, " \t\n") {
+		return "-"
+	}
+	return s
+}
 
 // emptyBlock advances the chain by one block without evidence.
 func (cr *chainRun) emptyBlock() error {
@@ -79,6 +89,26 @@ func (cr *chainRun) step(mode string, elines []string) ([]failure, *stepInfo, er
 	}
 	cr.script = append(cr.script, "STEP "+mode)
 	cr.script = append(cr.script, elines...)
+	var rawSD []byte
+	if mode == "X" {
+		// raw SlashData bytes chosen by the proposer: the evidence list is whatever the real decoder makes of them
+		// (replaySlashing: undecodable or empty list = error logged, nothing processed)
+		if len(elines) != 1 || !strings.HasPrefix(elines[0], "SD ") {
+			return nil, nil, fmt.Errorf("STEP X needs one SD line")
+		}
+		var derr error
+		rawSD, derr = hex.DecodeString(strings.TrimPrefix(elines[0], "SD -"))
+		if derr != nil {
+			return nil, nil, derr
+		}
+		elines = nil
+		var list []staking.Evidence
+		if rlp.DecodeBytes(rawSD, &list) == nil {
+			for _, e := range list {
+				elines = append(elines, fmt.Sprintf("E %s R -%x", orDash(e.Type), e.Data))
+			}
+		}
+	}
 	c, err := parseCase(append([]string{fmt.Sprintf("U %d %d", sc.head, sc.head+1)}, elines...))
 	if err != nil {
 		return nil, nil, err
@@ -121,7 +151,12 @@ func (cr *chainRun) step(mode string, elines []string) ([]failure, *stepInfo, er
 	}
 	k.A.Staking.VerifClearPool()
 	var forged []byte
-	if mode == "F" {
+	if mode == "X" {
+		forged = rawSD
+		if len(forged) == 0 {
+			forged = []byte{} // non-nil: replay path with empty SlashData
+		}
+	} else if mode == "F" {
 		forged, err = rlp.EncodeToBytes(evs)
 		if err != nil {
 			return nil, nil, err
@@ -245,6 +280,49 @@ func runChainScript(drv *vh.Driver, body []string) ([]failure, error) {
 	return all, nil
 }
 
+// genRawSlashData: what an adversarial proposer may put into header.SlashData besides a well-formed doublesignv5 list:
+// undecodable bytes, an empty list, evidences of the other (ignored) types — "inactive" with boundary rounds, the
+// deprecated "doublesign" — mixed with a real one.
+func genRawSlashData(r *vh.RNG, s *scenario) []byte {
+	real, _ := genEvidence(r, s, s.head)
+	ei, err := buildEvidence(strings.Fields(real))
+	if err != nil {
+		panic(err)
+	}
+	inact := func(round uint64, n int) staking.Evidence {
+		d := staking.EvidenceInactive{Round: round}
+		for i := 0; i < n; i++ {
+			d.Validators = append(d.Validators, s.vals[r.Intn(len(s.vals))].MainAddr())
+		}
+		return staking.NewEvidence(d)
+	}
+	rounds := []uint64{0, 1, 14, 15, 16, 20, s.head - 1, s.head, s.head + 1, s.head + 100, 1<<64 - 1}
+	switch r.Intn(7) {
+	case 0:
+		return r.Bytes(r.Intn(60))
+	case 1:
+		return []byte{0xc0}
+	case 2:
+		return []byte{}
+	case 3:
+		b, _ := rlp.EncodeToBytes([]staking.Evidence{inact(rounds[r.Intn(len(rounds))], r.Intn(4))})
+		return b
+	case 4:
+		b, _ := rlp.EncodeToBytes([]staking.Evidence{inact(rounds[r.Intn(len(rounds))], r.Intn(4)), ei.ev, inact(s.head, 1)})
+		return b
+	case 5:
+		old := staking.NewEvidence(staking.EvidenceDoubleSign{Round: new(big.Int).SetUint64(s.head), RoundIndex: 0, Signs: map[common.Hash][]byte{common.BytesToHash(hashN(1)): r.Bytes(65), common.BytesToHash(hashN(2)): r.Bytes(65)}})
+		b, _ := rlp.EncodeToBytes([]staking.Evidence{old, ei.ev})
+		return b
+	default:
+		b, _ := rlp.EncodeToBytes([]staking.Evidence{ei.ev})
+		if len(b) > 3 {
+			b = b[:len(b)-1-r.Intn(3)]
+		}
+		return b
+	}
+}
+
 func replayChain(drv *vh.Driver, body []string) (bool, string) {
 	fs, err := runChainScript(drv, body)
 	if err != nil {
@@ -268,8 +346,10 @@ func chainLevel(c *vh.Ctx, drv *vh.Driver) error {
 	var cr *chainRun
 	var err error
 	slashed := 0
+	lastAccepted := ""
 	for i := 0; i < steps; i++ {
 		if cr == nil || slashed >= 4 {
+			lastAccepted = ""
 			if cr != nil {
 				cr.stop()
 			}
@@ -284,11 +364,50 @@ func chainLevel(c *vh.Ctx, drv *vh.Driver) error {
 		if c.R.Chance(40) {
 			mode = "F"
 		}
+		if c.R.Chance(15) {
+			if err := cr.pad(); err != nil {
+				return err
+			}
+			sd := genRawSlashData(c.R, cr.sc)
+			res.Dist("chain:raw-slashdata")
+			fs, _, err := cr.step("X", []string{"SD -" + hex.EncodeToString(sd)})
+			if err != nil {
+				return fmt.Errorf("chain step %d (raw SlashData): %v\n%s", i, err, strings.Join(cr.script, "\n"))
+			}
+			res.TracesVsImpl++
+			res.Dist("case:chain-block-X")
+			res.Count(strings.Join(cr.script, "\n"), true)
+			for _, f := range fs {
+				key := f.kind + "/" + f.matcher
+				chainReported[key]++
+				if chainReported[key] > 2 {
+					continue
+				}
+				rp := vh.WriteReplay(c.ReplayDir, "C05", fmt.Sprintf("chainx%d-%s-%d", i, strings.ReplaceAll(key, "/", "-"), c.Seed), c.Seed,
+					[]string{"chain script", "failure " + f.kind + " " + f.matcher, strings.ReplaceAll(f.what, "\n", " | ")}, cr.script)
+				res.Fail(f.kind, f.matcher, f.what, rp)
+			}
+			if len(fs) > 0 {
+				cr.stop()
+				cr = nil
+			}
+			continue
+		}
 		n := 1 + c.R.Weighted([]int{50, 30, 20})
 		if err := cr.pad(); err != nil {
 			return err
 		}
 		var el []string
+		if lastAccepted != "" && c.R.Chance(50) {
+			// the equivocation punished in an earlier block, offered again (same blob or another encoding): its round is
+			// no longer the parent round, so it must never be punished a second time
+			re := lastAccepted
+			if x := reencode(c.R, lastAccepted); x != "" && c.R.Bool() {
+				re = x
+			}
+			el = append(el, re)
+			res.Dist("chain:resubmitted-after-acceptance")
+		}
 		for j := 0; j < n; j++ {
 			l, story := genEvidence(c.R, cr.sc, cr.sc.head)
 			res.Dist("chain:" + story)
@@ -300,6 +419,13 @@ func chainLevel(c *vh.Ctx, drv *vh.Driver) error {
 		}
 		res.TracesVsImpl++
 		res.Dist("case:chain-block-" + mode)
+		if ls := strings.Split(info.letters, ","); len(ls) == len(el) {
+			for j, l := range ls {
+				if l == "c" || l == "d" {
+					lastAccepted = el[j]
+				}
+			}
+		}
 		slashed += info.changed
 		nt := false
 		for _, l := range strings.Split(info.letters, ",") {
